@@ -70,13 +70,18 @@ class Worker:
         env["ASAN_OPTIONS"] = "detect_leaks=0:abort_on_error=0:allocator_may_return_null=1:detect_stack_use_after_return=0"
         env["UBSAN_OPTIONS"] = "print_stacktrace=1"
         env.update(self.extra_env)
-        pre = None
-        if self.stack_kb:
-            import resource
-            kb = self.stack_kb
+        import resource
+        kb = self.stack_kb
+        # a runaway input must fail fast instead of eating the machine (ASan needs its huge address space,
+        # so the san flavour is limited through hard_rss_limit_mb instead)
+        as_limit = None if self.flavour == "san" else int(os.environ.get("UTAPV_AS_MB", "6000")) << 20
+        env["ASAN_OPTIONS"] += ":hard_rss_limit_mb=6000"
 
-            def pre():
+        def pre():
+            if kb:
                 resource.setrlimit(resource.RLIMIT_STACK, (kb * 1024, kb * 1024))
+            if as_limit:
+                resource.setrlimit(resource.RLIMIT_AS, (as_limit, as_limit))
         self.proc = subprocess.Popen([self.exe, "--stderr-inherit"], stdin=subprocess.PIPE, stderr=self.errfile,
                                      stdout=subprocess.PIPE, env=env, preexec_fn=pre, bufsize=0)
         self._buf = b""
@@ -156,7 +161,7 @@ class Worker:
         except WorkerDied as e:
             if e.timed_out:
                 try:
-                    return self.call(req, timeout * 10)
+                    return self.call(req, min(timeout * 10, 120.0))
                 except WorkerDied as e2:
                     e = e2
             return {"died": True, "sig": e.sig, "timed_out": e.timed_out, "stderr": e.stderr_tail}
